@@ -14,6 +14,7 @@ import (
 	"bytes"
 	"crypto/aes"
 	"fmt"
+	"sort"
 	"strings"
 
 	"golang.org/x/crypto/chacha20"
@@ -29,9 +30,8 @@ import (
 func main() { vf.Main("C53", vf.Exploration, run) }
 
 const (
-	off    = 160 // offset of the input in the backing array
-	bufLen = 768
 	poison = 0xEE
+	bufLen = 768 // adPlacement only; runUnit sizes its backing array from the shifts it enumerates
 )
 
 // op is one function under test, normalised to "read in, produce out".
@@ -54,6 +54,46 @@ type op struct {
 	geom func(r0, r1, i0, i1 int) string
 }
 
+const (
+	longLen1 = 1 << 16
+	longLen2 = 1<<20 + 16
+)
+
+// shiftsFor lists the offsets of the output region relative to the input that are enumerated for
+// one (function, length): every offset -maxShift..+maxShift for inputs below 64 KiB, a sparse set
+// around the same small values for long inputs, and always the far boundary of the overlap
+// relation: output region ending / starting exactly at, one byte before and one byte behind the
+// start / end of the input (+-(len-1), +-len, +-(len+1) for both the input and the output length),
+// and half-way.
+func shiftsFor(maxShift, inLen, need int) []int {
+	set := map[int]bool{}
+	if inLen < longLen1 {
+		for s := -maxShift; s <= maxShift; s++ {
+			set[s] = true
+		}
+	} else {
+		for _, s := range []int{0, 1, 16, 65, 4096, inLen / 2} {
+			set[s], set[-s] = true, true
+		}
+	}
+	for _, l := range []int{inLen, need} {
+		for _, s := range []int{l - 1, l, l + 1} {
+			if s > 0 {
+				set[s], set[-s] = true, true
+			}
+		}
+	}
+	if inLen < longLen1 && inLen/2 > 0 {
+		set[inLen/2], set[-inLen/2] = true, true
+	}
+	var out []int
+	for s := range set {
+		out = append(out, s)
+	}
+	sort.Ints(out)
+	return out
+}
+
 func seq(from, n int) []byte {
 	b := make([]byte, n)
 	for i := range b {
@@ -70,6 +110,16 @@ func ops(c *vf.Ctx) []op {
 			stdLens = append(stdLens, n)
 		}
 		stdLens = append(stdLens, 200, 255, 256, 257)
+	}
+	// medium lengths: one on each side of every length class of the block/assembly code (128/129, 192/193,
+	// 320/321, 512/513: chacha20poly1305_amd64.s; 256: salsa20 4-block path), 1000, 4097; long: 64 KiB, 1 MiB+16
+	// (sparse shift set, see shiftsFor); 0: the empty input
+	stdLens = append([]int{0}, stdLens...)
+	stdLens = append(stdLens, 129, 193, 321, 513, 1000, 4097, longLen1, longLen2)
+	var longer []int // thorough only
+	if c.Thorough {
+		longer = []int{1<<18 + 16, 1 << 22}
+		stdLens = append(stdLens, longer...)
 	}
 	key := seq(0x11, 32)
 	var key32 [32]byte
@@ -91,11 +141,10 @@ func ops(c *vf.Ctx) []op {
 		clens[n] = true
 	}
 	var chachaLens []int
-	for n := 1; n <= 300; n++ {
-		if clens[n] {
-			chachaLens = append(chachaLens, n)
-		}
+	for n := range clens {
+		chachaLens = append(chachaLens, n)
 	}
+	sort.Ints(chachaLens)
 	for _, nl := range []int{12, 24} {
 		nonce := seq(0x31, nl)
 		for _, k := range []int{0, 1, 10, 63, 64, 65} {
@@ -103,7 +152,16 @@ func ops(c *vf.Ctx) []op {
 			if k > 0 {
 				name += fmt.Sprintf("/after%dbytes", k)
 			}
-			out = append(out, op{name: name, inPlace: true, lens: chachaLens, input: msgOf, outLen: same,
+			lens := chachaLens
+			if k != 0 && k != 10 {
+				lens = nil
+				for _, n := range chachaLens {
+					if n < longLen1 {
+						lens = append(lens, n)
+					}
+				}
+			}
+			out = append(out, op{name: name, inPlace: true, lens: lens, input: msgOf, outLen: same,
 				call: func(dst, in []byte) ([]byte, bool) {
 					ci, _ := chacha20.NewUnauthenticatedCipher(key, nonce)
 					if k > 0 {
@@ -130,6 +188,7 @@ func ops(c *vf.Ctx) []op {
 	if c.Thorough {
 		xlens = []int{16, 32, 48, 64, 80, 128, 208, 256}
 	}
+	xlens = append(append(xlens, 512, 528, 4096, 4112, longLen1, longLen2), longer...)
 	out = append(out, op{name: "xts.Encrypt", inPlace: true, lens: xlens, input: msgOf, outLen: same,
 		call: func(dst, in []byte) ([]byte, bool) { xk.Encrypt(dst, in, 7); return dst[:len(in)], true }})
 	out = append(out, op{name: "xts.Decrypt", inPlace: true, lens: xlens, input: msgOf, outLen: same,
@@ -177,7 +236,7 @@ func ops(c *vf.Ctx) []op {
 	pubB, privB, _ := box.GenerateKey(vf.NewRand("c53-B"))
 	var shared [32]byte
 	box.Precompute(&shared, pubB, privA)
-	blens := []int{1, 16, 63, 65, 200}
+	blens := append([]int{0, 1, 16, 63, 65, 200, 1000, 4097, longLen1, longLen2}, longer...)
 	out = append(out, op{name: "box.Seal", appendTo: true, lens: blens, input: msgOf, outLen: func(n int) int { return n + box.Overhead },
 		call: func(dst, in []byte) ([]byte, bool) { return box.Seal(dst, in, &nonce24, pubB, privA), true }})
 	out = append(out, op{name: "box.Open", appendTo: true, lens: blens,
@@ -245,7 +304,8 @@ func run(c *vf.Ctx) {
 	}
 	c.Rule(fmt.Sprintf("for each of chacha20 (12/24-byte nonce; fresh and after consuming k in {1,10,63,64,65} key-stream bytes, lengths {1,4,16,32,50,53,54,60,63,64,65,200}), salsa20 (8/24), xts Encrypt/Decrypt, {ChaCha20,XChaCha20}-Poly1305 Seal/Open x path{asm,generic}, secretbox Seal/Open, "+
 		"box Seal/Open/SealAfterPrecomputation/OpenAfterPrecomputation/SealAnonymous/OpenAnonymous, sign Sign/Open: input at a fixed offset of one backing array, output region at EVERY offset -%d..+%d "+
-		"x lengths {1,16,63,64,65,200} (xts {16,64,208}) x dst variants {exact length/capacity, longer dst or spare capacity, capacity one short, 3-byte dst prefix}; AEAD additional data at 9 placements around the output region; "+
+		"x lengths {0,1,16,63,64,65,200,129,193,321,513,1000,4097} (xts {16,64,208,512,528,4096,4112}) x dst variants {exact length/capacity, longer dst or spare capacity, capacity one short, 3-byte dst prefix}, "+
+		"plus for EVERY length the far boundary of the overlap relation: offsets +-(len-1), +-len, +-(len+1) for input and output length and +-len/2; long inputs 64 KiB and 1 MiB+16 (thorough also 256 KiB+16, 4 MiB) at offsets {0,+-1,+-16,+-65,+-4096,+-len/2} and the far boundary; AEAD additional data at 9 placements around the output region; "+
 		"expected: same start + documented in-place => equals separate-buffer result; other overlap => panic; disjoint => equals separate-buffer result; "+
 		"where the documentation forbids/leaves open (NaCl same start, capacity-only overlap, reallocation) => panic or correct; always: no write outside the output region; "+
 		"non-trivial = distinct (function,path,length,offset,variant) whose output region overlaps the input", maxShift, maxShift))
@@ -313,7 +373,20 @@ func runUnit(c *vf.Ctx, o *op, name string, n, maxShift int) {
 	}
 	ref = append([]byte(nil), ref...)
 	evals := 0
-	B := make([]byte, bufLen)
+	shifts := shiftsFor(maxShift, len(in), need)
+	maxAbs := shifts[len(shifts)-1]
+	if -shifts[0] > maxAbs {
+		maxAbs = -shifts[0]
+	}
+	off := maxAbs + 8 // offset of the input in the backing array
+	span := len(in)
+	if need > span {
+		span = need
+	}
+	B := make([]byte, off+maxAbs+span+64)
+	pristine := bytes.Repeat([]byte{poison}, len(B))
+	copy(pristine[off:], in)
+	before := make([]byte, len(B))
 	type variant struct {
 		name   string
 		extra  int // fixed ops: dst is this much longer than needed; append ops: spare capacity (-1 = one short)
@@ -325,14 +398,14 @@ func runUnit(c *vf.Ctx, o *op, name string, n, maxShift int) {
 	} else {
 		variants = []variant{{"len=exact", 0, 0}, {"len=longer", 17, 0}}
 	}
-	for shift := -maxShift; shift <= maxShift; shift++ {
+	for _, shift := range shifts {
 		ds := off + shift // start of the output region
 		for _, va := range variants {
-			for i := range B {
-				B[i] = poison
+			if len(in) >= longLen1 && (va.name == "prefix3+spare" || va.name == "cap=one-short" && shift != 0 && shift != 1 && shift != -1) {
+				continue // long inputs: no dst prefix; the reallocating variant for same start and +-1 only
 			}
+			copy(B, pristine)
 			I := B[off : off+len(in) : off+len(in)]
-			copy(I, in)
 			var dst []byte
 			i0, i1 := off, off+len(in)
 			r0, r1 := ds, ds+need // region that receives the output if no reallocation happens
@@ -360,7 +433,7 @@ func runUnit(c *vf.Ctx, o *op, name string, n, maxShift int) {
 			if !o.appendTo {
 				pre = nil
 			}
-			before := append([]byte(nil), B...)
+			copy(before, B)
 
 			// expectation
 			exp := expCorrect
@@ -441,17 +514,19 @@ func runUnit(c *vf.Ctx, o *op, name string, n, maxShift int) {
 			if realloc || (len(got) > 0 && need > 0 && &got[len(pre)] != &B[ds]) {
 				w0, w1 = 0, 0
 			}
-			for i := range B {
-				if (i < w0 || i >= w1) && B[i] != before[i] {
-					c.Violation(fmt.Sprintf("%s: writes outside its output region", name), map[string]any{"at": det(), "index_rel_to_input": i - off})
-					break
+			if !bytes.Equal(B[:w0], before[:w0]) || !bytes.Equal(B[w1:], before[w1:]) {
+				for i := range B {
+					if (i < w0 || i >= w1) && B[i] != before[i] {
+						c.Violation(fmt.Sprintf("%s: writes outside its output region", name), map[string]any{"at": det(), "index_rel_to_input": i - off})
+						break
+					}
 				}
 			}
 		}
 	}
 	c.Eval(evals)
 	if n == 65 || n == 64 {
-		c.Sample(map[string]any{"function": name, "len": n, "offsets": 2*maxShift + 1, "variants": len(variants), "calls": evals})
+		c.Sample(map[string]any{"function": name, "len": n, "offsets": len(shifts), "variants": len(variants), "calls": evals})
 	}
 }
 
